@@ -63,6 +63,11 @@ func genEventActions(r *rand.Rand, p *PatSpec, allowPanic bool, n int) []string 
 
 func (EventsScenario) GenCase(r *rand.Rand, prop string) interface{} {
 	c := &SvcCase{SvcName: "test", Gate: true, Epochs: 1, MidStop: []int{-1}}
+	if chance(r, 20) {
+		// Shutdown while callbacks are emitting events: what they emit is
+		// still applied, published (attempted) and announced in order
+		c.MidStop = []int{15 + r.IntN(120)}
+	}
 	c.Workers = pick(r, 1, 2, 3, 4, 32)
 	c.InCh = pick(r, 8, 1024)
 	c.QueryMs = 1000
@@ -143,6 +148,9 @@ func (EventsScenario) Execute(sim *sched.Sim, ci interface{}, prop string, race 
 	if !race {
 		run.CheckOrder()
 		run.CheckLifecycle()
+		if c.MidStop[0] >= 0 {
+			run.E.checkEvents()
+		}
 	}
 	return run.Outcome(prop)
 }
@@ -357,8 +365,23 @@ func (e *Engine) checkEvents() {
 			if !ok || w.exit == 0 {
 				continue
 			}
+			if e.Case.MidStop[0] >= 0 && !e.handlerFinished(s) {
+				continue
+			}
 		case "emitscript":
 			if s.Invoke == 0 || s.Return == 0 || s.PatID < 0 {
+				continue
+			}
+			if ep := e.Epochs[0]; e.Case.MidStop[0] >= 0 && !(ep.Started != 0 && s.Invoke > ep.Started && ep.ShutdownInvoke != 0 && s.Return < ep.ShutdownInvoke) {
+				// an emission from a foreign goroutine that overlaps start-up
+				// or Shutdown, or comes after it, may be refused as not
+				// started (C03); only those entirely inside the started
+				// window are compared
+				for _, en := range all {
+					if en.seq > s.Invoke && en.seq < s.Return && en.task == s.Actor {
+						accounted[en.seq] = true
+					}
+				}
 				continue
 			}
 			w = win{enter: s.Invoke, exit: s.Return, task: s.Actor}
